@@ -16,12 +16,14 @@ import (
 )
 
 // legacy: correspondence of the remaining search entry points the CLI uses with Model/Legacy.lean:
-//   pipe    database.SearchWithPipelineOptions (what `wtf pipeline` calls); the legacy scorer
-//           calculateScore is an uninterpreted function of the model, its real values are supplied
-//           as the oracle line `ls` (hook VerifLegacyScore)
-//   recover recovery.RecoverFromSearchFailure (three substring scans)
-//   cli     the real `wtf search --format json` binary ($WTF_BIN) on a database file: the engine's
-//           answer or, when it is empty, the recovered answer cut to the limit in force
+//
+//	pipe    database.SearchWithPipelineOptions (what `wtf pipeline` calls); the legacy scorer
+//	        calculateScore is an uninterpreted function of the model, its real values are supplied
+//	        as the oracle line `ls` (hook VerifLegacyScore)
+//	recover recovery.RecoverFromSearchFailure (three substring scans)
+//	cli     the real `wtf search --format json` binary ($WTF_BIN) on a database file: the engine's
+//	        answer or, when it is empty, the recovered answer cut to the limit in force
+//
 // Lines `host ri cmd idf nq pq ib cb tf fz` are those of the search domain.
 func init() {
 	Register(&Domain{Name: "legacy", Gen: genLegacy, Exec: execLegacy})
